@@ -100,3 +100,42 @@ package labelmap
 //@   modifies *
 //@   assert at "d.MaxLabel[v] = curMax": !has(d.MaxLabel, v) || d.MaxLabel[v] < curMax
 //@   assert at "d.MaxRepoLabel = curMax": d.MaxRepoLabel < curMax
+
+// newLabel / newLabels: the labels handed out lie strictly above the maximum recorded when the mutex was
+// taken, and the recorded maximum is raised to cover them in the same critical section.
+//@ func Data.newLabel
+//@   prop C12 C11
+//@   requires d != nil && d.MaxLabel != nil
+//@   lockset
+//@   interference
+//@   lockbalance
+//@   safety_off
+//@   calls_havoc
+//@   modifies *
+//@   ghost g0 uint64 = 0
+//@   ghost n0 uint64 = 0
+//@   ghostset at "if d.NextLabel != 0 {": g0 = d.MaxRepoLabel
+//@   ghostset at "if d.NextLabel != 0 {": n0 = d.NextLabel
+//@   assert at "d.MaxLabel[v] = d.MaxRepoLabel": heldw("d.mlMu") && d.MaxRepoLabel == g0 + 1
+//@   assert at "if err := d.persistNextLabel(); err != nil {": heldw("d.mlMu") && d.NextLabel == n0 + 1
+
+//@ func Data.newLabels
+//@   prop C12 C11
+//@   requires d != nil && d.MaxLabel != nil
+//@   lockset
+//@   interference
+//@   lockbalance
+//@   safety_off
+//@   calls_havoc
+//@   modifies *
+//@   ghost g0 uint64 = 0
+//@   ghostset at "if d.NextLabel != 0 {": g0 = d.MaxRepoLabel
+//@   assert at "d.MaxLabel[v] = d.MaxRepoLabel": heldw("d.mlMu") && begin == g0 + 1 && end == g0 + numLabels && d.MaxRepoLabel == end
+
+//@ func Data.SetNextLabelStart
+//@   prop C12 C11
+//@   requires d != nil
+//@   lockset
+//@   safety_off
+//@   calls_havoc
+//@   modifies *
